@@ -136,6 +136,86 @@ def garbage_with_block(seed=3):
     return s1 + b"\x00junk" + junk + bwG.bytes() + junk, a
 
 
+# ------------------------------------------------------------------ byte-coded carrier blocks
+USED255 = list(range(255))          # 255 bytes in use -> 257 symbols: 255 codes of 8 bits, 2 of 9 bits
+LENS257 = [8] * 255 + [9, 9]
+
+
+def byte_block(payload, idx=0):
+    """A valid block whose Huffman-coded payload is `payload` verbatim (no 0xFF byte allowed):
+    byte b is the 8-bit code of symbol b (0/1 = run symbols, 2..254 = MTF positions); the end
+    of block is the 9-bit code 0x1FF.  Anything can therefore be planted in compressed data,
+    at any bit offset."""
+    assert 0xFF not in payload
+    syms = list(payload) + [256]
+    tt, r, plain = bzfmt.symbols_plain(syms, USED255, idx % max(1, 1))
+    crc = bzfmt.bzcrc(plain)
+    ng = (len(syms) + 49) // 50
+    bw = bzfmt.block_writer(syms, USED255, 0, [LENS257, LENS257], [0] * ng, crc)
+    return bw, crc, plain
+
+
+def _filler(rng, n):
+    return bytes(rng.randrange(2, 255) for _ in range(n))
+
+
+def _try(fn, tries=200):
+    for i in range(tries):
+        try:
+            return fn(i)
+        except (ValueError, AssertionError):
+            continue
+    raise RuntimeError("could not build planted file")
+
+
+def nested_valid_file(seed=5, iob=None, inner_text=b"nested block that must never be written\n" * 4, pad=64):
+    """Valid two-block file whose first block carries, verbatim inside its compressed data,
+    a complete valid block (magic, correct CRC, decodable) - a spurious candidate that decodes
+    successfully.  Returns (file bytes, expected plaintext)."""
+    def build(i):
+        rng = random.Random(seed * 1000 + i)
+        text = inner_text + bytes([65 + i % 26]) * (i % 7)
+        ibw, icrc = bzfmt.simple_block(text)
+        inner = ibw.bytes()                          # zero padded to a byte
+        payload = _filler(rng, pad) + inner + _filler(rng, pad + 2 * (iob or 0))
+        bw, crc, plain = byte_block(payload)
+        tail = b"second block\n" * 5
+        bw2, crc2 = bzfmt.simple_block(tail)
+        return bzfmt.stream_bytes([(bw, crc), (bw2, crc2)], 9), plain + tail
+    return _try(build)
+
+
+def straddle_file(iob, seed=6):
+    """Valid file with the 48-bit pattern planted twice in compressed data: once so that it
+    straddles an I/O-block boundary (file offset 4 + k*iob), once wholly inside a block."""
+    def build(i):
+        rng = random.Random(seed * 1000 + i)
+        magic = bytes.fromhex("314159265359") + bytes([0x11, 0x22, 0x33, 0x44])
+        hdr_bytes = 4 + 28                            # stream header + outer block header (approx.)
+        payload = bytearray(_filler(rng, 3 * iob + 64))
+        k = 2
+        pos = 4 + k * iob - 3 - hdr_bytes             # payload index: pattern crosses the boundary
+        payload[pos:pos + len(magic)] = magic
+        pos2 = pos + iob // 2
+        payload[pos2:pos2 + len(magic)] = magic
+        bw, crc, plain = byte_block(bytes(payload))
+        return bzfmt.stream_bytes([(bw, crc)], 9), plain
+    return _try(build)
+
+
+def garbage_with_stream(seed=7):
+    """A complete stream, then garbage, then another complete valid stream inside the garbage:
+    everything after the first stream is trailing garbage and must be ignored."""
+    rng = random.Random(seed)
+    a = b"the only stream that counts\n" * 12
+    bwA, crcA = bzfmt.simple_block(a)
+    s1 = bzfmt.stream_bytes([(bwA, crcA)], 9)
+    bwG, crcG = bzfmt.simple_block(b"a whole valid stream hidden in trailing garbage\n" * 6)
+    s2 = bzfmt.stream_bytes([(bwG, crcG)], 9)
+    junk = bytes(rng.randrange(256) for _ in range(21)).replace(b"BZ", b"bz")
+    return s1 + b"\x01" + junk + s2 + junk, a
+
+
 if __name__ == "__main__":
     import bz2, sys
     for iob in (256, 1024):
@@ -148,3 +228,10 @@ if __name__ == "__main__":
     d, p = garbage_with_block()
     ins = bzfmt.inspect(d)
     print("garbage", ins.valid, ins.trailing, ins.plain == p)
+    for name, (d, p) in (("nested", nested_valid_file()), ("straddle", straddle_file(256)), ("gstream", garbage_with_stream())):
+        ins = bzfmt.inspect(d)
+        try:
+            ref = bz2.decompress(d)
+        except Exception as e:
+            ref = repr(e)
+        print(name, len(d), ins.valid, ins.reason, ins.trailing, ins.plain == p, ref == p if isinstance(ref, bytes) else ref)
